@@ -288,6 +288,49 @@ def _r3(model, res):
                 (0, P39 - 1, hex_of({'n': 1}, 0), 'digits-of-n'), (P39, None, is_err, 'error (2^39 and beyond)')]
     n += _piecewise(model, res, 'DEC2HEX', 'n', lambda: [Aff(1, 0, 'int', 'n')], {}, spec_d2h, model.registered('DEC2HEX'), 'number -> digits')
     res.soft_floor("two's-complement pieces examined", n, 8)
+    _roundtrip_table(model, res)
+
+
+ROUNDTRIP_NUMBERS = (0, 1, 9, 10, 15, 16, 17, 160, 255, 256, 4095, 4096, 65536, 1048576, 2 ** 39 - 1, -1, -15, -16, -255, -256, -4096, -2 ** 39)
+
+
+def _roundtrip_table(model, res):
+    """R3 (constant table): HEX2DEC(DEC2HEX(n)) = n on constants that exercise every digit position (trailing and leading zeros, x
+    and 0 next to the prefix, both signs and both ends of the range); folding of hex()/int()/text methods on constants only.  A run
+    that is not one precise constant is undecided."""
+    m, f = model.registered('DEC2HEX')
+    n = 0
+    for num in ROUNDTRIP_NUMBERS:
+        for places in (None, 10):
+            case = {'n': num, 'places': places}
+            try:
+                outs = H.run_function(model, H.registry_func(model, 'DEC2HEX'), lambda: [Const(num)] + ([Const(places)] if places else []))
+                if len(outs) != 1 or outs[0].imprecise or outs[0].kind != 'return' or not isinstance(outs[0].value, (Const, Err)):
+                    res.ob('R3', 'DEC2HEX', case, True, 'undecided: %s' % '; '.join(H.describe(outs))[:120])
+                    continue
+                h = outs[0].value
+                want = format(num % 2 ** 40, 'X')
+                want = want.rjust(places, '0') if places else want
+                if isinstance(h, Err) or not isinstance(h.value, str):
+                    back = None
+                else:
+                    outs2 = H.run_function(model, H.registry_func(model, 'HEX2DEC'), lambda: [Const(h.value)])
+                    if len(outs2) != 1 or outs2[0].imprecise or outs2[0].kind != 'return' or not isinstance(outs2[0].value, (Const, Err)):
+                        res.ob('R3', 'DEC2HEX', case, True, 'undecided: %s' % '; '.join(H.describe(outs2))[:120])
+                        continue
+                    back = outs2[0].value
+            except Unmodelled as e:
+                res.ob('R3', 'DEC2HEX', case, True, 'undecided: %s' % e)
+                continue
+            n += 1
+            ok = isinstance(back, Const) and back.value == num and not isinstance(back.value, bool) and isinstance(h, Const) and h.value == want
+            res.ob('R3', 'DEC2HEX', dict(case, digits=repr(h), back=repr(back)), ok)
+            if not ok:
+                res.violation('R3', 'function:DEC2HEX:round-trip', m.where(f),
+                              'DEC2HEX(%d%s) gives %r and HEX2DEC of that gives %r; the 40-bit two\'s-complement digits of %d are %r and '
+                              'HEX2DEC(DEC2HEX(n)) = n' % (num, ', %d' % places if places else '', h, back, num, want),
+                              case=case, func=f.name)
+    res.soft_floor('DEC2HEX/HEX2DEC constant round trips decided', n, 30)
 
 
 def _table_nodes(m, f):
